@@ -16,21 +16,27 @@ import (
 // the WAL (row-format records for line protocol / converted rows, raw columnar payload in
 // an envelope for msgpack); the replication hook ships that payload; the reader's ingest
 // handler must buffer the same rows under the same database and measurement.
+var c32ColNames = []string{"host", "database", "_database", "measurement", "_measurement", "m"}
+
 func VerifC32Replicated() {
 	zz.ClockFixed(1700000000000000000)
 	db := zz.OneOf("db", "prod", "default", "tenant2")
 	meas := zz.OneOf("measurement", "cpu", "mem")
 	var shipped [][]byte
 	w := wal.VerifWriterWithHook(func(e *wal.ReplicationEntry) { shipped = append(shipped, e.Payload) })
-	val := zz.OneOf("value", "a", "b")
-	if zz.Bool("row_format") {
+	val := zz.OneOf("value", "a", "b", "mem")
+	// the payload's own column may carry a routing-like name (tag/field/column called
+	// database, _database, measurement, _measurement, m)
+	col := c32ColNames[zz.Choice("column", len(c32ColNames))]
+	rowFormat := zz.Bool("row_format")
+	if rowFormat {
 		// line protocol / converted row records: writeColumnarInternal appends
 		// columnarToWALRecords(database, record)
-		rec := &models.ColumnarRecord{Measurement: meas, Columnar: true, Columns: map[string][]interface{}{"time": {int64(1700000000000000)}, "host": {val}}}
+		rec := &models.ColumnarRecord{Measurement: meas, Columnar: true, Columns: map[string][]interface{}{"time": {int64(1700000000000000)}, col: {val}}}
 		zz.Assert(w.Append(ingest.VerifToWALRecords(db, rec)) == nil, "WAL append failed")
 	} else {
 		// msgpack columnar: the client's bytes, enveloped with the request's database
-		raw, err := msgpack.Marshal(map[string]interface{}{"m": meas, "columns": map[string]interface{}{"time": []interface{}{int64(1700000000000000)}, "host": []interface{}{val}}})
+		raw, err := msgpack.Marshal(map[string]interface{}{"m": meas, "columns": map[string]interface{}{"time": []interface{}{int64(1700000000000000)}, col: []interface{}{val}}})
 		zz.Assert(err == nil, "marshal failed")
 		zz.Assert(w.AppendRawWithMeta(db, raw) == nil, "WAL append failed")
 	}
@@ -48,8 +54,12 @@ func VerifC32Replicated() {
 		got := ingest.VerifObserved[0]
 		zz.Assert(zz.EqStr(got.Database, db), "a replicated write landed under another database on the reader")
 		zz.Assert(zz.EqStr(got.Measurement, meas), "a replicated write landed under another measurement on the reader")
-		h, ok := got.Columns["host"]
-		zz.Assert(ok && len(h) == 1 && h[0] == interface{}(val) && len(got.Columns) == 2, "a replicated write lost or changed a column on the reader")
+		// the row-format WAL record is a flat map: a user column itself called _database or
+		// _measurement cannot coexist with the routing keys (listed under C05)
+		if !(rowFormat && (col == "_database" || col == "_measurement")) {
+			h, ok := got.Columns[col]
+			zz.Assert(ok && len(h) == 1 && h[0] == interface{}(val) && len(got.Columns) == 2, "a replicated write lost or changed a column on the reader")
+		}
 		zz.Assert(got.SkipWAL, "the reader wrote a replicated entry to its own WAL a second time")
 	}
 	zz.Reach("end")
